@@ -17,5 +17,5 @@ package marshal
 //@   modifies nothing
 
 //@ func (*NanoTime).UnmarshalJSON
-//@   on return assert string-form-decodes-exactly: r0 == nil && typeis(raw, string) ==> called(strconv.ParseInt) && ncalls(strconv.ParseInt) == 2 && lastret(strconv.ParseInt, 1) == nil && prevret(strconv.ParseInt, 1, 1) == nil && sec == prevret(strconv.ParseInt, 1, 0) && nano == lastret(strconv.ParseInt, 0) && t.Time == time.Unix(sec, nano)
+//@   on return assert string-form-decodes-exactly: r0 == nil && typeis(raw, string) ==> called(strconv.ParseInt) && ncalls(strconv.ParseInt) == 2 && lastret(strconv.ParseInt, 1) == nil && prevret(strconv.ParseInt, 1, 1) == nil && sec == prevret(strconv.ParseInt, 1, 0) && nano == lastret(strconv.ParseInt, 0) && *t == time.Unix(sec, nano)
 //@   modifies everything
